@@ -152,6 +152,11 @@ fn many(name: String, params: Value) -> Scenario {
                 e.push(Ev::Deliver(inbound(0, false, 0, &[*id], &format!("m{}", t))));
             }
             e.push(Ev::Deliver(inbound(1, false, 30, &[ids[0], ids[ids.len() - 1]], &format!("b{}", t))));
+            // one message for every subscription, in registration order and reversed (several of the
+            // streams may be gone by then, noticed or not)
+            e.push(Ev::Deliver(inbound(0, false, 0, &ids, &format!("all{}", t))));
+            let rev: Vec<u32> = ids.iter().rev().copied().collect();
+            e.push(Ev::Deliver(inbound(0, false, 0, &rev, &format!("rev{}", t))));
             e
         };
         drive(&mut sys, chz, depth, &devs, &evs);
